@@ -5,18 +5,20 @@
      BSemi     a TSemicolon token (written, or inserted by the lexer for a newline)
      BTerm     one complete statement that is not an expression and ends with consume_semicolon
                (let / return / break / continue), without its terminator
-     BBlock    one complete statement that ends with its own `}` (while / for / if statement)
-   The loop, as it is after b7be80a:
+     BBlock    one complete statement that ends with its own `}` (while / for)
+   The loop, as it is after b7be80a and 2fc971b:
      while not `}`:
        if is_expression_start():  e = expression()
-            if `}` follows           -> the block's value is e
+            if `}` follows           -> EXIT with value e
             consume_semicolon()      (`;` is consumed; `}` is accepted; anything else is an error)
-            skip further `;`; if `}` follows -> the block's value is e
-            else e becomes an expression statement
+            skip further `;`; if `}` follows -> EXIT with value e
+            else e is pushed as an expression statement
        else if `;`: skip it
-       else declaration()           (an expression whose first kind is not listed ends up here
-                                     as an expression statement: the block's value is then null)
-     `}` reached -> null
+       else declaration() is pushed   (an expression whose first kind is not listed ends up here)
+     `}` reached -> EXIT with null
+   At every EXIT reject_statements_before_value: if any statement was pushed the block is
+   rejected ("expected a single expression in the block of an if-expression") -- the block of an
+   if-expression is a single expression, there is no node that could carry statements.
    Not modelled: two items written next to each other without a `;` where the second could
    continue the first as one expression (`a (b)` is a call, `a - b` a subtraction); the model
    answers ParseError for every missing separator, the tie does not generate those texts. *)
@@ -27,22 +29,27 @@ Import ListNotations.
 Inductive bitem := BExpr (k : tkind) | BSemi | BTerm | BBlock.
 Inductive bresult := Value (nth_expression : nat) | Null | ParseError.
 
-(* last = the expression item that is the block's value if only `;` follow; need_sep = the
-   previous item still needs its `;` (or the closing `}`); i = expression items seen so far *)
-Fixpoint block_go (l : list bitem) (last : option nat) (need_sep : bool) (i : nat) : bresult :=
+(* last = the expression item that is the block's value if only `;` follow (not yet pushed);
+   need_sep = the previous item still needs its `;` (or the closing `}`); i = expression items
+   seen so far; pushed = statements pushed so far *)
+Definition pending_stmt (last : option nat) : nat := match last with Some _ => 1 | None => 0 end.
+Fixpoint block_go (l : list bitem) (last : option nat) (need_sep : bool) (i pushed : nat) : bresult :=
   match l with
-  | [] => match last with Some j => Value j | None => Null end
-  | BSemi :: r => block_go r last false i
+  | [] => if Nat.eqb pushed 0
+          then match last with Some j => Value j | None => Null end
+          else ParseError
+  | BSemi :: r => block_go r last false i pushed
   | BExpr k :: r =>
       if need_sep then ParseError
-      else if expr_start_listed k then block_go r (Some i) true (S i)
-      else block_go r None true (S i)
-  | BTerm :: r => if need_sep then ParseError else block_go r None true i
-  | BBlock :: r => if need_sep then ParseError else block_go r None false i
+      else if expr_start_listed k then block_go r (Some i) true (S i) (pushed + pending_stmt last)
+      else block_go r None true (S i) (S (pushed + pending_stmt last))
+  | BTerm :: r => if need_sep then ParseError else block_go r None true i (S (pushed + pending_stmt last))
+  | BBlock :: r => if need_sep then ParseError else block_go r None false i (S (pushed + pending_stmt last))
   end.
-Definition block_value (l : list bitem) : bresult := block_go l None false 0.
+Definition block_value (l : list bitem) : bresult := block_go l None false 0 0.
 
 Definition is_semi (b : bitem) : bool := match b with BSemi => true | _ => false end.
+Definition is_stmt_item (b : bitem) : bool := match b with BTerm | BBlock => true | _ => false end.
 
 (* ---- statement sequences: Parser::parse (top level) and Parser::block_statements ({ ... } of
    functions, loops, if statements, lambdas):
